@@ -280,6 +280,8 @@ func runC03(r *Run) {
 		pauseAt = frameEnds[t.Draw(len(frameEnds)-1)]
 		pauseFor = []time.Duration{5500 * time.Millisecond, 20 * time.Second}[t.Draw(2)]
 	}
+	// (the read that delivers the last bytes may report the end of the stream in the same call)
+	rc.Lib.In().ErrWithData = t.Pct(30)
 	if pauseAt <= 0 || pauseAt >= len(stream) {
 		rc.Peer.Inject(stream)
 		rc.Raw.CloseWrite()
